@@ -101,7 +101,7 @@ class HComp(fm.TimeComponent):
     """
 
     def __init__(self, name, idx, start, steps, inputs=(), outputs=(), initial_pull=True,
-                 on_update=None, value=None, units="", in_units=None, out_deps=None):
+                 on_update=None, value=None, units="", in_units=None, out_deps=None, finish_after=None):
         super().__init__()
         self._name = name
         self.idx = idx
@@ -123,6 +123,8 @@ class HComp(fm.TimeComponent):
         # staged initial data: output -> inputs whose initial data it needs (default: all pulled inputs)
         self.out_deps = out_deps
         self._pushed0 = set()
+        # component declares itself FINISHED after this many updates (None: never)
+        self.finish_after = finish_after
 
     def step_at(self, k):
         return self.steps[k % len(self.steps)]
@@ -181,6 +183,8 @@ class HComp(fm.TimeComponent):
             self.received.append((self.k, n, self.time, d))
         for n in self.out_names:
             self.outputs[n].push_data(self.tag(self.k), self.time)
+        if self.finish_after is not None and self.k >= self.finish_after:
+            self.status = fm.ComponentStatus.FINISHED
 
     def _finalize(self):
         self.calls.append("finalize")
